@@ -89,7 +89,7 @@ def interp (p : Program) : Skel → St → St
 is readable in a failing build) -/
 def refRunCore : Skel :=
   .ifSkipDeco (.addSkip .ret) <|
-  .ifCaught .setUp (.callCleanups .ret) .done <|
+  .ifCaught .setUp (.callCleanups (.ifForce (.runUser .forceFail .done) .ret)) .done <|
   .setFailed false <|
   .tryFinally
     (.ifCaught .testMethod (.setFailed true .done) .done .done)
